@@ -64,6 +64,7 @@ type codecEnv struct {
 	encErr    string // kind of the encoder error oracleSlab met last ("" = none)
 	nestRej   bool   // oracleSlab: the register was rejected for its nesting depth
 	encPanic  bool   // EncodeSlab panicked on some slab of the current write set (sticky until the next commit)
+	named     bool   // runInlineProgram keys its composite maps by field names (hx.NK, codecnamed.go)
 }
 
 func (e *codecEnv) violation(prop, what string) {
@@ -556,6 +557,10 @@ func (e *codecEnv) oracleSlab(s atree.Slab) ([]byte, string) {
 	if err != nil {
 		e.violation("C07", fmt.Sprintf("extra data sections of slab %s do not re-parse: %v", hx.IDStr(id), err))
 	}
+	if bad := hx.SharedSectionCanonical(reg); bad != "" {
+		// C07 "canonical": an encoder that stops deduplicating still round-trips (regcheck.go)
+		e.violation("C07", fmt.Sprintf("the shared extra-data section of slab %s is not canonical: %s: %s", hx.IDStr(id), bad, hex.EncodeToString(reg)))
+	}
 	if (extra != 0) != isRoot {
 		e.violation("C07", fmt.Sprintf("slab %s: root %v but extra data section of %d bytes", hx.IDStr(id), isRoot, extra))
 	}
@@ -1020,7 +1025,9 @@ func codecStream(cfg *Config) *hx.Stats {
 		e.prog = 200 + p
 		T := []uint32{512, 1024, 256, 2048}[p%4]
 		nOps := 30 + rng.Intn(50)
+		e.named = p%4 == 3 // every second compact program: field names as keys
 		e.runInlineProgram(rng, T, nOps, p%2 == 1, true)
+		e.named = false
 		st.Programs++
 		st.Ops += nOps
 	}
@@ -1055,7 +1062,8 @@ func codecStream(cfg *Config) *hx.Stats {
 		"directed:storable-slab-with-ref", "directed:composite-shape-0", "directed:composite-shape-2", "directed:composite-shape-4",
 		"directed:max-digest-level-committed", "observation:digest-level-limit", "directed:extra-data-256-entries-committed",
 		"observation:extra-data-index-limit", "encerr:xdindex", "encerr:level", "directed:extra-data-limit-recovered",
-		"observation:decmode-nesting-limit", "directed:nesting-reloaded:arr", "directed:nesting-reloaded:map", "directed:nesting-reloaded:warr"}, codecStorSlabRequired...) { // + codecstorslab.go
+		"observation:decmode-nesting-limit", "directed:nesting-reloaded:arr", "directed:nesting-reloaded:map", "directed:nesting-reloaded:warr",
+		"directed:compact-type-id-reloaded", "inline:named-compact", "usz:all-width-boundaries"}, codecStorSlabRequired...) { // + codecstorslab.go
 		// (a run cut short by violations is judged by those, not by its coverage)
 		if st.Dist[tag] == 0 && st.HarnessErr == "" && len(st.Violations) == 0 {
 			st.HarnessErr = "codec stream never produced " + tag
@@ -1406,7 +1414,9 @@ func malformedStream(cfg *Config) *hx.Stats {
 	}
 	for p := 0; p < 6; p++ {
 		e.prog = 20 + p
+		e.named = p == 3
 		addAll(e.runInlineProgram(rng, []uint32{512, 1024, 256}[p%3], 25+rng.Intn(30), p%2 == 1, false))
+		e.named = false
 	}
 	for p := 0; p < 3; p++ {
 		e.prog = 30 + p
@@ -1455,10 +1465,12 @@ func malformedStream(cfg *Config) *hx.Stats {
 	}
 
 	caseNo := 0
+	var lastOutcome decOutcome
 	one := func(id atree.SlabID, data []byte, how string) string {
 		caseNo++
 		e.step = caseNo
 		o := e.emitDEC(id, data)
+		lastOutcome = o
 		st.Hit("mut:" + how)
 		if caseNo%4 == 0 || len(data) < 4 {
 			e.emitHDR(data)
@@ -1471,6 +1483,7 @@ func malformedStream(cfg *Config) *hx.Stats {
 		// whatever the decoder accepts must survive re-encoding without panicking
 		if o.class == "ok" {
 			e.reencodeAccepted(id, data, o)
+			e.childAddressOracle(id, data, o)
 		}
 		return o.class
 	}
@@ -1547,6 +1560,21 @@ func malformedStream(cfg *Config) *hx.Stats {
 		}
 		if len(devs) == 0 {
 			st.Hit("gram:dev:none:" + class)
+		}
+		// the generator's own verdict (grammarlabel.go)
+		switch label := gramLabel(devs); {
+		case label == "valid":
+			st.Hit("gram:label:valid:" + class)
+			if class != "ok" {
+				e.violation("C07", fmt.Sprintf("DecodeSlab rejects (%s %s) a %s register the slab grammar built from valid and boundary-valid fields only (deviations %v): %s",
+					class, lastOutcome.detail, regKind(data), devs, hex.EncodeToString(data)))
+			}
+		case label != "":
+			st.Hit("gram:label:invalid:" + class)
+			if class == "ok" {
+				e.violation("C07", fmt.Sprintf("DecodeSlab accepts a %s register with one invalid field (%s: %s; every other field valid) as %s: %s",
+					regKind(data), devs[0], gramInvalidDevs[devs[0]], lastOutcome.dump, hex.EncodeToString(data)))
+			}
 		}
 		for _, d := range devs {
 			st.Hit("gram:dev:" + d + ":" + class)
